@@ -71,6 +71,13 @@ func c12(e *Env) {
 		sel bool
 	}
 	var preps []prep
+	type stmt struct {
+		cl   *world.Client
+		tok  string
+		text string
+		sel  bool
+	}
+	var stmts []stmt
 	for _, cl := range f.clients {
 		for _, sel := range []bool{true, false} {
 			tok := w.NewToken()
@@ -78,8 +85,36 @@ func c12(e *Env) {
 			if sel {
 				text = "SELECT * FROM ks.t_" + tok + " WHERE k = ?"
 			}
-			preps = append(preps, prep{cl.Send("prepare", tok, &message.Prepare{Query: text}, nil), sel})
+			stmts = append(stmts, stmt{cl, tok, text, sel})
 		}
+	}
+	// phase 0 (some runs): the order of a driver recovering after a proxy restart - EXECUTE of an
+	// id this proxy has not seen prepared yet (the cluster knows it), then PREPARE, then EXECUTE
+	// again on the same connection. The early EXECUTEs themselves are not judged: the proxy
+	// cannot know whether their statement is a SELECT.
+	if c.Choose("recovery-order", 3) == 2 {
+		for _, st := range stmts {
+			if c.Choose("early-exec", 2) == 0 {
+				continue
+			}
+			id := world.PreparedID(st.text)
+			if c.Choose("cluster-knows", 3) != 0 {
+				w.ForeignPrepared(id, st.text)
+			}
+			tok := w.NewToken()
+			var rm []byte
+			if st.cl.Version.SupportsResultMetadataId() {
+				rm = id
+			}
+			st.cl.Send("execute", tok, world.ExecMsg(id, rm, tok, world.AllConsistencies[c.Choose("earlycl", len(world.AllConsistencies))]), nil)
+			e.Res.Stats["probe.c12.execute_before_prepare"]++
+		}
+		if !w.RunUntil(f.allAnswered, 10*time.Minute) {
+			return
+		}
+	}
+	for _, st := range stmts {
+		preps = append(preps, prep{st.cl.Send("prepare", st.tok, &message.Prepare{Query: st.text}, nil), st.sel})
 	}
 	if !w.RunUntil(f.allAnswered, 10*time.Minute) {
 		return
